@@ -83,12 +83,12 @@ REGISTRY['C14'] = {
     'not_covered': ['CaObjects::re_issue outside one iteration of its loop (the values_mut() iteration itself; the per-class decision and the sticky `required` flag are verified on the lifted loop body)', 'renewal of BGPsec certificates (create_renewal; ROA and ASPA renewal are covered: every due object, only those, same authorisations / definition)', 'validity windows contain the present'],
 }
 REGISTRY['C15'] = {
-    'v': ['c15_taproxy'],
+    'v': ['c15_taproxy', 'c15_ta_republish', 'c03_ta'],
     'k': [],
-    'level_text': 'Proxy side on the real text: a signer response is accepted exactly when a request is open, the nonce equals it, a signer is associated and the response is genuine under that signer\'s ID key (iff); one open request at a time; validate of signed request/response = CMS valid AND clear text equals signed content (iff); apply sets/replaces the associated signer as a whole and removes a delivered child response. The signer\'s process_signer_request and the SignerResponseReceived apply arm iterate HashMaps by value and are not covered.',
+    'level_text': 'Proxy side on the real text: a signer response is accepted exactly when a request is open, the nonce equals it, a signer is associated and the response is genuine under that signer\'s ID key (iff); one open request at a time; validate of signed request/response = CMS valid AND clear text equals signed content (iff); apply sets/replaces the associated signer as a whole and removes a delivered child response. TA objects: republish gives manifest and CRL one number (the next one, or the operator override), the same window, the CRL from the TA revocation list and a manifest of the CRL plus exactly the issued certificates, and refuses a certificate of another key; add_issued / revoke_issued revoke what they replace. The signer\'s process_signer_request and the SignerResponseReceived apply arm iterate HashMaps by value and are not covered.',
     'level_note': 'CMS validation, JSON decoding and PartialEq of payload types are assumed externals; mft_number_override assumed increasing (A7).',
     'design_ref': 'DESIGN.md section 10.4 (as built) and section 5 / C15',
-    'not_covered': ['TrustAnchorSigner::process_signer_request (by-value HashMap loop)', 'TrustAnchorProxy::apply arm SignerResponseReceived (by-value HashMap loops)', 'manifest/CRL numbers only increase across re-initialisation histories'],
+    'not_covered': ['TrustAnchorSigner::process_signer_request (by-value HashMap loop)', 'TrustAnchorProxy::apply arm SignerResponseReceived (by-value HashMap loops)', 'manifest/CRL numbers only increase across re-initialisation histories and operator overrides (republish takes the override as given)'],
 }
 REGISTRY['C17'] = {
     'v': ['c17_validate', 'c17_categorise'],
